@@ -286,6 +286,30 @@ def structural_facts():
 
 # ------------------------------------------------------------------ emit
 
+def sort_comparators():
+    """the two std::stable_sort lambdas of TransitData::generateForwardAndReverseConnections: for each, the (getter, operator) pairs of
+    the `if (A.x OP B.x) return true;` tests in source order (the model's fwdLt / revLt compare exactly these keys this way)"""
+    src = strip_comments(open(os.path.join(REPO, "src/transit_data.cpp")).read())
+    out = []
+    for vec in ("forwardConnections", "reverseConnections"):
+        m = re.search(r"std::stable_sort\(\s*%s\.begin\(\)\s*,\s*%s\.end\(\)\s*,\s*\[\]\s*\([^)]*\)\s*\{" % (vec, vec), src)
+        if not m:
+            raise ValueError("stable_sort of %s not found" % vec)
+        i = m.end(); depth = 1
+        while depth and i < len(src):
+            depth += {"{": 1, "}": -1}.get(src[i], 0); i += 1
+        body = src[m.end():i - 1]
+        keys = []
+        for a, op, b in re.findall(r"if\s*\(\s*connectionA\.get\(\)\.([\w().]+?)\s*([<>])\s*connectionB\.get\(\)\.([\w().]+?)\s*\)\s*\{?\s*return\s+true\s*;", body):
+            if a != b:
+                raise ValueError("comparator of %s compares %s with %s" % (vec, a, b))
+            keys.append((a, op))
+        if not re.search(r"return\s+false\s*;\s*$", body.strip()):
+            raise ValueError("comparator of %s does not end with return false" % vec)
+        out.append(keys)
+    return out[0], out[1]
+
+
 def main():
     os.makedirs(OUT, exist_ok=True)
     L = ["/- GENERATED by translator/extract.py from /repo — do not edit. -/", "namespace Tr.Gen", ""]
@@ -325,6 +349,10 @@ def main():
     lo = guard("load-order", load_order, [])
     L += ["/-- TransitData::loadAllData: (update call, a missing file is tolerated), in call order; a hard failure returns early -/",
           "def loadOrder : List (String × Bool) := " + llist(lo, lambda x: "(%s, %s)" % (lstr(x[0]), "true" if x[1] else "false")), ""]
+    fk, rk = guard("sort-comparators", sort_comparators, ([], []))
+    L += ["/-- keys of the two stable sorts of TransitData::generateForwardAndReverseConnections: (getter, operator of the `return true` test), in order -/",
+          "def fwdSortKeys : List (String × String) := " + llist(fk, lambda x: "(%s, %s)" % (lstr(x[0]), lstr(x[1]))),
+          "def revSortKeys : List (String × String) := " + llist(rk, lambda x: "(%s, %s)" % (lstr(x[0]), lstr(x[1]))), ""]
     facts = guard("structural-facts", structural_facts, {})
     facts.update(guard("loader-catch-facts", loader_catch_facts, {}))
     L += ["/-- structural facts read off the source (see translator/extract.py) -/",
@@ -335,7 +363,7 @@ def main():
     old = open(path).read() if os.path.exists(path) else None
     if old != new:
         open(path, "w").write(new)
-    print("translator: %d tables, %d failures%s" % (9, len(fails), "" if old == new else " (Tables.lean rewritten)"))
+    print("translator: %d tables, %d failures%s" % (10, len(fails), "" if old == new else " (Tables.lean rewritten)"))
     return 0
 
 
